@@ -235,6 +235,57 @@ def rule_D(ck, an, units):
         seen.add(name)
 
 
+def rule_E(ck, units, floor=1):
+    """a `clear()` member of a library class resets every data member that the other mutating members modify - otherwise an object that was
+    cleared still carries state of its previous use (the ring buffer that holds the LGMRES augmentation vectors)"""
+    ck.rule('E.clear-resets-state', 'for every amgcl class with a clear() member: each data member written by another non-const member function (constructors aside) is assigned or cleared in clear()', floor)
+    done = set()
+    for u in units.values():
+        an = Analyzer([u])
+        bycls = {}
+        for f in u.funcs:
+            if f.cls and f.cls.startswith('amgcl::') and f.body is not None and f.rel().startswith('amgcl/'):
+                bycls.setdefault(f.clsfull or f.cls, []).append(f)
+        for clsfull, fs in bycls.items():
+            clears = [f for f in fs if f.q.split('::')[-1] == 'clear' and not f.params]
+            if not clears:
+                continue
+            cls = fs[0].cls
+            if cls in done:
+                continue
+            done.add(cls)
+
+            def written_members(f):
+                out = set()
+                for a in an.accesses(f):
+                    if a.root[0] == 'this' and a.kind in ('kill', 'elem', 'rw', 'one', 'wo'):
+                        out.add(a.root[1])
+                for n in f.nodes.values():
+                    if n['k'] == 'bin' and n['op'] in ('=', '+=', '-=', '*=', '/=', '%='):
+                        x = unwrap(n['x'])
+                        if x is not None and x['k'] == 'mem' and (x.get('b') is None or unwrap(x['b'])['k'] == 'this'):
+                            out.add(x['n'])
+                    if n['k'] == 'un' and n['op'] in ('++', '--'):
+                        x = unwrap(n['e'])
+                        if x is not None and x['k'] == 'mem' and (x.get('b') is None or unwrap(x['b'])['k'] == 'this'):
+                            out.add(x['n'])
+                    if n['k'] == 'call' and n.get('obj') is not None and not n.get('cm'):
+                        o = unwrap(n['obj'])
+                        if o is not None and o['k'] == 'mem' and (o.get('b') is None or unwrap(o['b'])['k'] == 'this') and n.get('m') in ('clear', 'push_back', 'resize', 'assign', 'pop_back', 'erase', 'insert'):
+                            out.add(o['n'])
+                return out
+            state = set()
+            for f in fs:
+                if f.j.get('ctor') or f.j.get('dtor') or f in clears:
+                    continue
+                state |= written_members(f)
+            reset = written_members(clears[0])
+            missing = sorted(state - reset)
+            ck.ob('E.clear-resets-state', cls, clears[0].where(), not missing,
+                  '' if not missing else '%s::clear() does not reset the member(s) %s, which %s modify: a cleared object still depends on its earlier use' % (
+                      cls, missing, ', '.join(sorted({f.q.split('::')[-1] for f in fs if not f.j.get('ctor') and f not in clears and (written_members(f) & set(missing))}))), trivial=not state)
+
+
 def main(tier):
     ck = Check('C15', tier, 'C15 (clauses): solver / preconditioner objects carry no state from one call to the next.')
     T = os.path.join(ir.VERIF, 'tus')
@@ -251,6 +302,8 @@ def main(tier):
         rule_D(ck, an, {name: u})
         import c17
         c17.rule_B(ck, {name: u})   # the system matrix handed over by shared pointer is never modified
+        if name == 'rt_builtin':
+            rule_E(ck, {name: u})
         if name in ('rt_builtin', 'mpi_rt'):
             import c02
             c02.rule_AB(ck, {name: u})   # per-level scratch of the multigrid cycle is history-free (shared with C02)
